@@ -86,9 +86,10 @@ def check_runset(proj, obs, strict=True):
     pred = obs["pred"]
     ran = executed(obs["trace"])
     cnt = Counter(ran)
-    dup = sorted(x for x, n in cnt.items() if n > 1)
+    want = Counter(pred["ran"])   # >1 only for `redo X` naming a target that an earlier argument already built
+    dup = sorted(x for x, n in cnt.items() if n > max(1, want.get(x, 0)))
     if dup:
-        out.append(({"kind": "ran-twice", "world": proj.w.name, "targets": dup}, {"ran": ran}))
+        out.append(({"kind": "ran-twice", "world": proj.w.name, "targets": dup}, {"ran": ran, "must": pred["ran"]}))
     if pred.get("ambiguous"):
         return out
     for x in pred.get("overbuilt", []):
